@@ -432,6 +432,12 @@ def c03(case: dict, cv: CallView, out: list, budget: BudgetModel) -> dict:
             return info
         counts[k] = counts.get(k, 0) + 1
         H = stop_conditions(cfg, k, a.n, t_fail, counts)
+        # tokens taken by other users of the shared budget while this failure was being handled (they come
+        # before the library's own consume(): the harness takes them inside the strategy callback)
+        for _, x in a.of("budget_ext"):
+            if x[1]:
+                budget.grant(x[2])
+                info["stolen"] = True
         B = budget.would_refuse(abs_t)
         info["H_sizes"].append(len(H))
         if "MAX_ATTEMPTS_GLOBAL" in H and not (H - {"MAX_ATTEMPTS_GLOBAL"}):
